@@ -338,19 +338,48 @@ pub fn run_reuse(s: &mut Src, ctx: &mut Ctx) -> Verdict {
     let ncalls = 2 + s.below(2);
     let tweaks: Vec<(usize, i64)> = (0..ncalls).map(|_| (s.below(INTS.len() + 1), s.range(0, 5))).collect();
     c.max_cycles = c.max_cycles.max(1);
+    // drawn last: in one case in four (with >= 2 rules) the engine starts on a knowledge base that holds all rules but
+    // the last, with the first one switched off (n - 1 adds + 1 toggle = n changes), and before call `swap` the caller
+    // replaces it -- `*engine.knowledge_base_mut() = other` -- by another object that holds ALL rules, built from
+    // scratch (n adds = n changes: same name, same version number). From then on the rule set is the new one.
+    let swap: Option<usize> = if n >= 2 && s.chance(1, 4) { Some(1 + s.below(ncalls - 1)) } else { None };
     if probe_only() {
         return Verdict::Pass;
     }
-    ctx.describe(|| format!("max_cycles={} activation groups {:?} calls={} tweaks before each call {:?}\n{}", c.max_cycles, groups, ncalls, tweaks, describe(&c.rules, &c.store)));
-    let kb = rust_rule_engine::KnowledgeBase::new("kb");
-    for (r, g) in c.rules.iter().zip(groups.iter()) {
-        let mut rule = rule_to_engine(r);
-        if let Some(g) = g {
-            rule = rule.with_activation_group(format!("g{}", g));
+    ctx.describe(|| {
+        format!(
+            "max_cycles={} activation groups {:?} calls={} tweaks before each call {:?}{}\n{}",
+            c.max_cycles,
+            groups,
+            ncalls,
+            tweaks,
+            match swap {
+                Some(k) => format!("; the engine starts on a knowledge base without the last rule and with {} disabled, replaced through knowledge_base_mut() before call {} by a fresh one holding all rules", c.rules[0].name, k),
+                None => String::new(),
+            },
+            describe(&c.rules, &c.store)
+        )
+    });
+    let build = |upto: usize| -> Option<rust_rule_engine::KnowledgeBase> {
+        let kb = rust_rule_engine::KnowledgeBase::new("kb");
+        for (r, g) in c.rules.iter().zip(groups.iter()).take(upto) {
+            let mut rule = rule_to_engine(r);
+            if let Some(g) = g {
+                rule = rule.with_activation_group(format!("g{}", g));
+            }
+            if kb.add_rule(rule).is_err() {
+                return None;
+            }
         }
-        if kb.add_rule(rule).is_err() {
-            return Verdict::fail("add-rule-error", "");
-        }
+        Some(kb)
+    };
+    let kb = match build(if swap.is_some() { n - 1 } else { n }) {
+        Some(k) => k,
+        None => return Verdict::fail("add-rule-error", ""),
+    };
+    if swap.is_some() {
+        let _ = kb.set_rule_enabled(&c.rules[0].name, false);
+        ctx.label("knowledge-base-replaced-between-calls");
     }
     let mut engine = rust_rule_engine::RustRuleEngine::with_config(kb, rust_rule_engine::EngineConfig { max_cycles: c.max_cycles, timeout: None, enable_stats: false, debug_mode: false });
     let facts = c.store.to_facts();
@@ -359,6 +388,15 @@ pub fn run_reuse(s: &mut Src, ctx: &mut Ctx) -> Verdict {
     let mut judged_fixpoints = 0;
     let mut fixpoint_after_err = false;
     for call in 0..ncalls {
+        if swap == Some(call) {
+            match build(n) {
+                Some(k) => *engine.knowledge_base_mut() = k,
+                None => return Verdict::fail("add-rule-error", ""),
+            }
+        }
+        // the rules the engine holds during this call
+        let before_swap = swap.map(|k| call < k).unwrap_or(false);
+        let held = |i: usize| -> bool { !before_swap || (i != 0 && i != n - 1) };
         let (k, v) = tweaks[call];
         if k < INTS.len() {
             let _ = facts.set_nested(INTS[k], rust_rule_engine::Value::Integer(v));
@@ -395,13 +433,13 @@ pub fn run_reuse(s: &mut Src, ctx: &mut Ctx) -> Verdict {
                 if r.cycle_count < c.max_cycles {
                     // stopped before the bound: fixpoint on the engine's own final facts
                     let st = store_from_engine(&facts);
-                    for rule in &c.rules {
-                        if rule.no_loop && ever_fired.contains(&rule.name) {
+                    for (ri, rule) in c.rules.iter().enumerate() {
+                        if !held(ri) || (rule.no_loop && ever_fired.contains(&rule.name)) {
                             continue;
                         }
                         if eval_cond(&rule.cond, &st) == T3::True {
                             return Verdict::fail(
-                                "not-a-fixpoint:reused-engine",
+                                if swap.map(|k| call >= k).unwrap_or(false) { "not-a-fixpoint:after-the-knowledge-base-was-replaced" } else { "not-a-fixpoint:reused-engine" },
                                 format!("call {} on a reused engine stopped after {} of {} cycles (fired {}) but rule {} is still true on the final facts ({} earlier calls returned Err)", call, r.cycle_count, c.max_cycles, r.rules_fired, rule.name, errs),
                             );
                         }
